@@ -233,3 +233,38 @@ def nondet_calls(fx, bodies):
             if re.search(NONDET, q):
                 out.append(c)
     return out
+
+
+def arm_values(body):
+    """For a body that is one `match <enum place> { .. }` producing the return value: {discriminant: expr of the
+    value the arm returns}; 'otherwise' key for a wildcard arm.  Structural read of SwitchInt targets."""
+    sw = body.discr_switches()
+    if not sw:
+        return {}
+    bb, pl, ty, targets, otherwise = sw[0]
+    out = {}
+    alltg = list(targets.items()) + [("otherwise", otherwise)]
+    for v, tg in alltg:
+        others = set(t for vv, t in alltg if t != tg)
+        region = body.reachable(tg, without_blocks=tuple(others))
+        val = None
+        for i in sorted(region):
+            bl = body.blocks[i]
+            for s in bl["stmts"]:
+                if s["k"] == "assign" and s["place"] == 0:
+                    rv = s["rv"]
+                    if rv["k"] == "use":
+                        val = expr(body, rv["op"])
+                    elif rv["k"] == "agg":
+                        val = "%s(%s)" % (rv.get("variant") or rv["ak"], ",".join(expr(body, o) for o in rv["ops"]))
+                    else:
+                        val = "?"
+            t = bl["term"]
+            if t["k"] == "call" and t["dest"] == 0:
+                c = Call(body, i, t)
+                val = "%s(%s)" % ((c.callee_q or "?").rsplit("::", 1)[-1], ",".join(expr(body, a) for a in c.args))
+        if all(body.blocks[i]["term"]["k"] == "unreachable" for i in region) and region:
+            continue
+        # a region shared by several discriminants (A | B => ..) is reported for each
+        out[v] = val
+    return out
